@@ -1274,6 +1274,110 @@ def _succs_of(t, n):
     return [o for o in outs if o < n]
 
 
+def _derived_unit_eq(g):
+    """variants map when g is the body `#[derive(PartialEq)]` gives a field-less enum (compare the two discriminants, nothing else), else None"""
+    if not g or g.get("arg_count") != 2 or len(g.get("blocks", [])) != 1 or g["blocks"][0]["term"]["k"] != "return":
+        return None
+    discr, bins = [], []
+    for st in g["blocks"][0]["stmts"]:
+        rv = st.get("rv") or {}
+        k = rv.get("k")
+        if k == "discr":
+            discr.append(rv)
+        elif k == "bin":
+            bins.append(st)
+        elif k not in ("ref", "use", "copy_for_deref", None):
+            return None
+    if len(discr) == 2 and len(bins) == 1 and bins[0]["rv"]["op"] == "Eq" and bins[0]["lhs"]["l"] == 0 and discr[0].get("variants") \
+            and discr[0].get("ty") == discr[1].get("ty"):
+        return discr[0]["variants"]
+    return None
+
+
+def rewrite_unit_enum_eq(raw):
+    """`x == Enum::V` on a field-less enum with a derived PartialEq is a call of the derived `eq` with a promoted `&Enum::V`; rewritten to what
+    `matches!(x, Enum::V)` compiles to (a switch on x's discriminant that assigns true / false), so that both spellings are one shape and the
+    jump threading below can resolve it when x was assigned a known variant on the way"""
+    eqs = {}
+    for fid, g in raw.items():
+        if fid.endswith("as std::cmp::PartialEq>::eq"):
+            v = _derived_unit_eq(g)
+            if v:
+                eqs[fid[1:].split(" as ")[0]] = v
+    if not eqs:
+        return
+    for fid, d in raw.items():
+        blocks = d["blocks"]
+        for bi in range(len(blocks)):
+            blk = blocks[bi]
+            t = blk["term"]
+            if t["k"] != "call" or blk.get("cleanup") or t.get("target") is None or t["dest"].get("p"):
+                continue
+            fn_ = ((t.get("func") or {}).get("const") or {}).get("fn") or {}
+            if fn_.get("trait") != "std::cmp::PartialEq" or fn_.get("name") not in ("eq", "ne") or fn_.get("self_ty") not in eqs or len(t["args"]) != 2:
+                continue
+            if fn_.get("generics") and len(set(fn_["generics"])) != 1:
+                continue
+            variants = eqs[fn_["self_ty"]]
+
+            def single_def(l):
+                found = None
+                for st in blk["stmts"]:
+                    if st.get("lhs") and st["lhs"]["l"] == l and not st["lhs"].get("p"):
+                        found = st.get("rv")
+                return found
+
+            def const_variant(op):
+                pl = op.get("copy") or op.get("move")
+                if not pl or pl.get("p"):
+                    return None
+                rv = single_def(pl["l"])
+                if not rv or rv.get("k") != "ref":
+                    return None
+                src = rv["place"]
+                if [p_.get("k") for p_ in src.get("p", [])] == ["deref"]:
+                    rv2 = single_def(src["l"])
+                    c = (rv2 or {}).get("op", {}).get("const") if (rv2 or {}).get("k") == "use" else None
+                    if c and "promoted" in c:
+                        pg = raw.get("%s::{promoted#%s}" % (c.get("promoted_owner") or c.get("item"), c["promoted"]))
+                        if pg and len(pg["blocks"]) == 1:
+                            for st in pg["blocks"][0]["stmts"]:
+                                rv3 = st.get("rv") or {}
+                                if rv3.get("k") == "aggr" and rv3.get("variant") and not rv3.get("ops"):
+                                    return rv3["variant"]
+                elif not src.get("p"):
+                    rv2 = single_def(src["l"])
+                    if rv2 and rv2.get("k") == "aggr" and rv2.get("variant") and not rv2.get("ops"):
+                        return rv2["variant"]
+                return None
+
+            def subject_place(op):
+                pl = op.get("copy") or op.get("move")
+                if not pl or pl.get("p"):
+                    return None
+                rv = single_def(pl["l"])
+                if rv and rv.get("k") == "ref" and not rv["place"].get("p"):
+                    return {"l": rv["place"]["l"]}
+                return {"l": pl["l"], "p": [{"k": "deref"}]}
+            v0, v1 = const_variant(t["args"][0]), const_variant(t["args"][1])
+            if (v0 is None) == (v1 is None):
+                continue
+            var = v0 if v0 is not None else v1
+            subj = subject_place(t["args"][1] if v0 is not None else t["args"][0])
+            idx = [k_ for k_, nm in variants.items() if nm == var]
+            if subj is None or len(idx) != 1:
+                continue
+            n_loc = len(d["locals"])
+            d["locals"].append("isize")
+            hit, miss = (True, False) if fn_["name"] == "eq" else (False, True)
+            b_hit, b_miss = len(blocks), len(blocks) + 1
+            for val in (hit, miss):
+                blocks.append({"stmts": [{"lhs": {"l": t["dest"]["l"]}, "rv": {"k": "use", "op": {"const": {"ty": "bool", "bool": val}}}, "line": (t.get("span") or {}).get("line")}],
+                               "term": {"k": "goto", "target": t["target"], "span": t.get("span", {})}, "enum_eq": True, **({"inl": blk["inl"]} if blk.get("inl") else {})})
+            blk["stmts"] = blk["stmts"] + [{"lhs": {"l": n_loc}, "rv": {"k": "discr", "place": subj, "ty": fn_["self_ty"], "variants": variants}, "line": (t.get("span") or {}).get("line")}]
+            blk["term"] = {"k": "switch", "discr": {"move": {"l": n_loc}}, "targets": [[int(idx[0]), b_hit]], "otherwise": b_miss, "span": t.get("span", {}), "enum_eq": fn_["name"]}
+
+
 def thread_bool_switches(d):
     """jump threading for switches on a bool local or on the discriminant of an enum local whose value is a known constant / variant on some of
     the incoming paths: the region between the assignment and the switch is duplicated for that path with the switch resolved"""
@@ -1547,6 +1651,10 @@ class Program:
                     raw[fid] = nd
                     self.inlined[fid] = nd["inlined"]
             if not os.environ.get("TTV_NO_THREAD"):
+                try:
+                    rewrite_unit_enum_eq(raw)
+                except (KeyError, IndexError, TypeError):
+                    pass
                 for f in raw.values():
                     try:
                         thread_bool_switches(f)
